@@ -206,6 +206,8 @@ def run(ctx):
     ]
     if ctx.thorough:
         plan += [("race:2-starts-empty+kill", 1), ("race:3-starts-empty", 0)]
+    else:
+        plan += [("race:3-starts-empty", 0)]
     tear = "all" if ctx.thorough else "quick"
     # torn writes at every byte offset only for the sequential crash
     # scenarios; in races the kill positions are {1, L/2, L-1}
@@ -218,10 +220,16 @@ def run(ctx):
     for name, kills in plan:
         t0 = time.time()
         cap = None
+        pb = None
         if name == "race:3-starts-empty":
-            cap = 150000
+            # three processes: iterative context bounding (all schedules
+            # with at most pb preemptions), complete within that bound
+            pb = 2 if ctx.thorough else 1
         a = vsched.explore(ctx, FACTORY, name, max_kills=kills,
-                           tear_mode=tear_of(name), max_states=cap)
+                           tear_mode=tear_of(name), max_states=cap,
+                           preemption_bound=pb)
+        if pb is not None:
+            acc.bounds["preemption_bound:" + name] = pb
         per[name] = {"states": a.counters["states"],
                      "wall_s": round(time.time() - t0, 1),
                      "transitions": a.counters["transitions"],
@@ -237,11 +245,13 @@ def run(ctx):
         "set_config / merge_json_union on an in-memory FS; scenarios: %s; "
         "crash scenarios: one kill at every primitive boundary and torn "
         "write prefix (%s) followed by a fresh start; race scenarios: every "
-        "interleaving of file-system primitives (state-hash pruned BFS). "
+        "interleaving of file-system primitives (state-hash pruned BFS); "
+        "three racing starts: every schedule with at most %d preemptions. "
         "non-trivial = terminal executions (all processes finished or "
         "killed) on which the per-process outcome was judged" %
         (", ".join(n for n, _ in plan),
-         "every byte offset" if ctx.thorough else "1, L/2, L-1"))
+         "every byte offset" if ctx.thorough else "1, L/2, L-1",
+         2 if ctx.thorough else 1))
     acc.assumptions = [
         "crash = process kill; unflushed user-space buffers are lost, "
         "completed raw writes persist (no power-loss / block reordering)",
